@@ -311,3 +311,43 @@ V('c03-twin-ttl-flipped', 'C03', 'C03.TTLCLASS', INF,
 V('c03-twin-hygiene-inline', 'C03', 'C03.INDEX', RG,
   "        record_list = records[key]\n        record_list.remove(name)\n        if not record_list:\n            del records[key]",
   "        records[key].remove(name)\n        if len(records[key]) == 0:\n            records.pop(key)", expect='silent')
+
+INCF = '_protocol/incoming.py'
+# ---------------------------------------------------------------- C02
+V('c02-strict-decode', 'C02', 'C02.TOTAL', INCF,
+  "labels.append(self.data[label_idx : label_idx + length].decode('utf-8', 'replace'))", "labels.append(self.data[label_idx : label_idx + length].decode('utf-8'))", names=['UnicodeDecodeError'])
+V('c02-handler-drops-indexerror', 'C02', 'C02.TOTAL', INCF,
+  "DECODE_EXCEPTIONS = (IndexError, struct.error, IncomingDecodeError)", "DECODE_EXCEPTIONS = (struct.error, IncomingDecodeError)", names=['IndexError'])
+V('c02-keyerror-lookup', 'C02', 'C02.TOTAL', INCF,
+  "            linked_labels = self._name_cache.get(link_py_int)", "            linked_labels = self._name_cache[link_py_int] if link_py_int < off else None", names=['KeyError'])
+V('c02-slot-init-late', 'C02', 'C02.TOTAL', INCF,
+  "        self._name_cache: Dict[int, List[str]] = {}\n", "", names=['_name_cache'],
+  more=[(INCF, "        self._has_qu_question = False\n        try:\n            self._initial_parse()", "        self._has_qu_question = False\n        try:\n            self._initial_parse()\n            self._name_cache: Dict[int, List[str]] = {}")])
+V('c02-valueerror-raise', 'C02', 'C02.TOTAL', INCF,
+  "        self.offset += length\n        return None", "        if length > 4096:\n            raise ValueError('rdata too long')\n        self.offset += length\n        return None", names=['ValueError'])
+V('c02-depth-guard-removed', 'C02', 'C02.DEPTH', INCF,
+  "                if len(seen_pointers) > MAX_DNS_LABELS:", "                if False:", names=['_decode_labels_at_offset'])
+V('c02-depth-guard-huge', 'C02', 'C02.DEPTH', INCF,
+  "                if len(seen_pointers) > MAX_DNS_LABELS:", "                if len(seen_pointers) > MAX_DNS_LABELS * 32:", names=['_decode_labels_at_offset'])
+V('c02-depth-fresh-set', 'C02', 'C02.DEPTH', INCF,
+  "                self._decode_labels_at_offset(link, linked_labels, seen_pointers)", "                self._decode_labels_at_offset(link, linked_labels, {link_py_int})", names=['_decode_labels_at_offset'])
+V('c02-loop-no-advance', 'C02', 'C02.LOOPS', INCF,
+  "                off += DNS_COMPRESSION_HEADER_LEN + length\n                continue", "                off += length - 1\n                continue")
+V('c02-loop-zero-length', 'C02', 'C02.LOOPS', INCF,
+  "            if length == 0:\n                return off + DNS_COMPRESSION_HEADER_LEN\n\n            if length < 0x40:",
+  "            if length < 0x40:", more=[(INCF, "                off += DNS_COMPRESSION_HEADER_LEN + length\n                continue", "                off += length\n                continue")])
+V('c02-bitmap-no-advance', 'C02', 'C02.LOOPS', INCF,
+  "            self.offset += 2 + bitmap_length", "            self.offset += bitmap_length")
+V('c02-namelen-dropped', 'C02', 'C02.NAMELEN', INCF,
+  "        if len(name) > MAX_NAME_LENGTH:", "        if len(name) > MAX_NAME_LENGTH * 4:")
+V('c02-name-bypass', 'C02', 'C02.NAMELEN', INCF,
+  "            return DNSPointer(domain, type_, class_, ttl, self._read_name(), self.now)", "            return DNSPointer(domain, type_, class_, ttl, self._read_character_string(), self.now)")
+V('c02-oversize-accepted', 'C02', 'C02.GUARD', '_listener.py',
+  "        if data_len > _MAX_MSG_ABSOLUTE:", "        if data_len > _MAX_MSG_ABSOLUTE * 2:")
+# twins
+V('c02-twin-guard-flipped', 'C02', 'C02.DEPTH', INCF,
+  "                if len(seen_pointers) > MAX_DNS_LABELS:", "                if MAX_DNS_LABELS < len(seen_pointers):", expect='silent')
+V('c02-twin-namelen-ge', 'C02', 'C02.NAMELEN', INCF,
+  "        if len(name) > MAX_NAME_LENGTH:", "        if len(name) >= MAX_NAME_LENGTH + 1:", expect='silent')
+V('c02-twin-loop-while-rewrite', 'C02', 'C02.LOOPS', INCF,
+  "                off += DNS_COMPRESSION_HEADER_LEN + length\n                continue", "                off += length\n                off += 1\n                continue", expect='silent')
